@@ -113,6 +113,10 @@ func run(r *mon.Run) {
 			if g.Chance(1, 3) {
 				h[name] = append(h[name], "second", "")
 			}
+			if g.Chance(1, 10) {
+				// header values are byte strings: octets that are not UTF-8, DEL and HTAB travel unchanged
+				h[name] = []string{mon.Pick(g, []string{"caf\xe9", "\xff\xfe", "a\x7fb", "tab\there", "\x80", "nbsp\xa0end", "\xc3("})}
+			}
 			if g.Chance(1, 12) {
 				// values whose (joined) length sits on a CBOR head-size boundary
 				h[name] = []string{strings.Repeat("L", mon.Pick(g, []int{23, 24, 255, 256, 65535, 65536, 65537}))}
